@@ -266,6 +266,17 @@ func runCase(c *kase) {
 		if c.pout.OK() {
 			c.dl = append(c.dl, fmt.Sprintf("O %s %s %s %s %s %s %s", f[1], f[2], f[3], f[4], f[5], f[6], intsStr(c.perm)))
 		}
+	case 'C':
+		t, init, ops := f[1][0], f[2], splitOps(f[3])
+		c.impl = execC(t, init, ops)
+		c.spec = specC(t, ops)
+		dinit := init
+		if init == "def" {
+			dinit = "cap:0"
+		}
+		c.dl = []string{"C " + f[1] + " " + dinit + " " + f[3]}
+	case 'T':
+		runTable(c)
 	case 'X':
 		t, ops := f[1][0], splitOps(f[2])
 		c.impl = execX(t, ops)
@@ -445,6 +456,35 @@ func judge(c *kase, rep *vh.Report) {
 			rep.Fail("correspondence", typeNames[t]+".Filtering:model-disagrees",
 				fmt.Sprintf("implementation %s, model %s", vh.Clip(c.impl[0], 80), vh.Clip(c.dout[0], 80)), replayOf(c, nil))
 		}
+	case 'T':
+		judgeTable(c, rep)
+	case 'C':
+		t, ops := f[1][0], splitOps(f[3])
+		rep.Case(c.line, len(ops) > 0)
+		rep.Count("C.type." + typeNames[t])
+		for i, op := range ops {
+			rep.Count("C.op." + strings.Split(op, ":")[0])
+			if at(c.impl, i) == "p" {
+				rep.Count("C.panic." + strings.Split(op, ":")[0])
+			}
+		}
+		crossName := map[string]string{"aI": "AddInt", "aS": "AddString", "sI": "SetInt", "sS": "SetString", "gI": "GetInt", "gS": "GetString", "t": "ToArray"}
+		model := splitOps(c.dout[0])
+		if d := firstDiff(c.impl, c.spec); d >= 0 {
+			cls := classify(at(c.impl, d), at(c.spec, d))
+			if cls == "out-of-range-not-reported" {
+				cls = "error-not-reported" // bad index or text that is not a number
+			}
+			rep.Fail("property", typeNames[t]+"."+crossName[strings.Split(at(ops, d), ":")[0]]+":"+cls,
+				fmt.Sprintf("%s: op #%d %s answers %s, integers-as-decimal-text answer %s", typeNames[t], d, vh.Clip(at(ops, d), 60), vh.Clip(at(c.impl, d), 60), vh.Clip(at(c.spec, d), 60)),
+				replayOf(c, map[string]interface{}{"op_index": d}))
+			return
+		}
+		if d := firstDiff(c.impl, model); d >= 0 {
+			rep.Fail("correspondence", typeNames[t]+"."+crossName[strings.Split(at(ops, d), ":")[0]]+":model-disagrees",
+				fmt.Sprintf("op #%d %s: implementation %s, model %s", d, vh.Clip(at(ops, d), 60), vh.Clip(at(c.impl, d), 60), vh.Clip(at(model, d), 60)),
+				replayOf(c, map[string]interface{}{"op_index": d}))
+		}
 	case 'X':
 		t, ops := f[1][0], splitOps(f[2])
 		rep.Case(c.line, len(ops) > 0)
@@ -548,6 +588,15 @@ func judgeSort(c *kase, f []string, rep *vh.Report) {
 		rep.Fail("correspondence", who+":model-sorts-differently",
 			fmt.Sprintf("model permutation %s does not give the sorted value sequence", vh.Clip(c.dout[0], 80)), replayOf(c, nil))
 		return
+	}
+	// up to 12 elements sort.Sort is the insertion sort the model transcribes: the very same permutation
+	if n <= 12 && intsStr(c.perm) != c.dout[0] {
+		rep.Fail("correspondence", who+":small-input-permutation-differs",
+			fmt.Sprintf("n=%d ≤ 12: implementation returns %s, the model of sort.Sort's insertion sort %s", n, intsStr(c.perm), c.dout[0]), replayOf(c, nil))
+		return
+	}
+	if n <= 12 {
+		rep.Count("M.exact-permutation(n≤12)")
 	}
 	if c.dout[1] != "ok" {
 		rep.Fail("correspondence", who+":model-rejects-result",
